@@ -79,3 +79,15 @@ Theorem C05_blending_parameter_scales : forall k, 0 < k -> forall b bd cs,
   sigma_blend (k * b) bd cs = sigma_blend b bd cs / (k * k).
 Proof. exact sigma_blend_scale. Qed.
 Print Assumptions C05_blending_parameter_scales.
+(* ... and so is the part that concerns the lifting line on Kuchemann's locus (Model/Kuchemann.v, tied to the stored table by the C12
+   correspondence): scaling semispan and chords by k leaves the aspect ratio and every offset - a fraction of the local chord - unchanged *)
+From MuxV Require Import Model.Kuchemann Proofs.KuchemannP.
+Theorem C05_kuchemann_offset_scales : forall fcos ftan fpow pi k, k <> 0 ->
+  (forall b mean_chord, mean_chord <> 0 -> aspect (k * b) (k * mean_chord) = aspect b mean_chord) /\
+  (forall CLa RA sw b loc c, offset_at fcos ftan fpow pi CLa RA sw (k * b) loc (k * c) = offset_at fcos ftan fpow pi CLa RA sw b loc c).
+Proof.
+  intros fcos ftan fpow pi k Hk. split.
+  - intros b mc Hm. apply aspect_scale; assumption.
+  - intros. apply offset_scale. exact Hk.
+Qed.
+Print Assumptions C05_kuchemann_offset_scales.
